@@ -16,6 +16,23 @@ MODEL_TRUSTED = [
 ]
 
 PROPS = {
+    "C01": {
+        "modules": ["AmVerif.Props.C01"],
+        "engines": [{"name": "conc", "quick": 12, "thorough": 120},
+                    {"name": "conc", "tag": "conc-3cpus", "quick": 4, "thorough": 40, "cpus": 3},
+                    {"name": "cache", "quick": 60, "thorough": 2000}],
+        "rule": "conc: free-running real threads (search only): `race` = 2-8 threads load / get_or_insert the same absent key, the loader waits until all racers are inside it (forced simultaneous misses), 60-300 rounds per case, every 16 rounds 2000 unrelated insertions then every earlier handle re-read; `probe` = 2-4 readers look up 32 stable entries (directly and through AnyCache) while 2-4 writers insert 30k-200k unrelated entries; also under taskset with 3 CPUs (other shard count). cache: sequential op sequences with handle identity (h<n> = n-th distinct entry) diffed against the model. non-trivial = every case; distinct = distinct (parameters, outcome)",
+        "trusted": COMMON_TRUSTED + MODEL_TRUSTED + ["modelled, not verified: RwLock / RefCell give mutual exclusion for the extent of their guards; the lifetime-extending cast in AssetMap::{get,insert} is sound given C01_no_dangling (Box address stable, no removal through &self)"],
+        "assumptions": ["each of AssetMap::{get,insert,contains_key} is one atomic step (skeleton theorems: whole body inside one lock scope)", "Box<CacheEntry> keeps its address when the HashMap grows"],
+    },
+    "C02": {
+        "modules": ["AmVerif.Props.C02"],
+        "engines": [{"name": "cache", "quick": 150, "thorough": 5000},
+                    {"name": "cache", "tag": "cache-3cpus", "quick": 40, "thorough": 1000, "cpus": 3}],
+        "rule": "random operation sequences (5-60 ops) over load / load_owned / get_cached / get_or_insert / contains / remove / take / clear / directory loads on all front-ends (AssetCache, LocalAssetCache, AnyCache views; with reloader, without_hot_reloading, source without hot-reloading support), ids drawn 80% from a 7-id tree whose script assets load / look up / load_owned each other (nested, failing, panicking loads), a malformed stream (absent ids, empty id, unicode, spaces, 70-char ids, wrong type for id); every 7th case is a seeded slice of the bounded-exhaustive enumeration of all length-3 sequences over 2 ids x 2 types x 8 ops; second run under taskset with 3 CPUs (different shard count); oracle = C02's statement on snapshots of the whole key universe after every op; non-trivial = executed a cache op; distinct = distinct transcripts",
+        "trusted": COMMON_TRUSTED + MODEL_TRUSTED,
+        "assumptions": ["std HashMap behaves as a map (keep-first association list in the model)", "loaders are deterministic"],
+    },
     "C03": {
         "modules": ["AmVerif.Props.C03"],
         "engines": [{"name": "load", "quick": 45, "thorough": 1500}],
